@@ -224,7 +224,7 @@ def compare_copy(src, dst, route):
     """Every observable field the two kinds have in common must be equal (parents/indices re-targeted)."""
     a, b = snapshot(src), snapshot(dst)
     skip = {"cls"}
-    if route == "concat":
+    if route in ("concat", "or"):
         n, nb = len(a["atoms"]), len(a.get("bonds", []))
         b = _sub(b, n, nb)
         skip |= {"name", "charge", "mult", "attrib"}
@@ -309,6 +309,8 @@ class MolHeapAdapter:
                     dst = getattr(ml, to)(src, **kw)
                 elif r == "concat":
                     dst = getattr(ml, to).concatenate(src, make(to))
+                elif r == "or":
+                    dst = src | make(self.kinds[i])           # operator form of concatenate: always a Structure
                 elif r == "join":
                     # an end atom of either fragment (one bond, not one of the first two atoms) serves as attachment point
                     dst = getattr(ml, to).join(src, make(to), join_ap(src), 2)
